@@ -379,10 +379,17 @@ func (m *MonFinality) AfterStep(nw *Network) {
 				cur[k] = v
 			}
 			for k, v := range prev {
-				if cv, ok := cur[k]; !ok || cv != v {
-					nw.violate(m.Prop, m.Prop+":signature-lost-or-changed",
-						fmt.Sprintf("node %d: signature of %s on block %d disappeared or changed", n.Idx, k[:12], i), map[string]interface{}{"node": n.Idx})
+				cv, ok := cur[k]
+				if !ok {
+					nw.violate(m.Prop, m.Prop+":signature-lost",
+						fmt.Sprintf("node %d: the signature of %s on block %d disappeared", n.Idx, k[:12], i), map[string]interface{}{"node": n.Idx})
 					return
+				}
+				if cv != v {
+					// the same validator may legitimately sign the same body again (e.g. after
+					// replaying history with a fresh store): the set of signers is what may
+					// only grow; validity of each entry is judged by C09
+					nw.Res.count("finality_signature_values_replaced_by_same_signer", 1)
 				}
 			}
 			if len(cur) > len(prev) {
